@@ -696,6 +696,9 @@ class Interp:
                 except NotInClass:
                     tgt = None
             name = tgt or '<indirect>'
+            indirect_resolved = tgt is not None and bool(self.prog.funcs(tgt))
+        else:
+            indirect_resolved = False
         ev = Event('call', name=name, args=args, node=node, id=cid, loop=st.loopdepth, argnodes=node.get('args', []))
         st.events.append(ev)
         # out-parameters: &local -> havoc
@@ -715,7 +718,7 @@ class Interp:
         if res is None:
             T = node.get('T', '')
             pure = name in PURE_LIBM or (self.pure_pred(name, node) if self.pure_pred else
-                                         (node.get('callee_proj') and '*' not in T and T != 'void'))
+                                         ((node.get('callee_proj') or indirect_resolved) and '*' not in T and T != 'void'))
             if pure:
                 sym = '%s(%s)' % (name, ','.join(a.canon() for a in args))
             else:
